@@ -341,6 +341,16 @@ func vcWaitPoint(mark uint64, point int, obj uintptr, d time.Duration) bool {
 	}
 }
 
+// vcSeenSince: the trace since mark holds an event (point, obj).
+func vcSeenSince(mark uint64, point int, obj uintptr) bool {
+	for _, e := range vcTraceSince(mark) {
+		if int(e.Point) == point && (obj == 0 || e.Obj == obj) {
+			return true
+		}
+	}
+	return false
+}
+
 func vcPointName(id int) string {
 	if id >= vpFaultBase && id < vpFaultBase+vfltCount {
 		return "FAULT@" + vcFaultSiteNames[id-vpFaultBase]
